@@ -30,6 +30,7 @@ def check(ctx):
                   'periodic tree, uniform binning, image-corrected differences); never averaged, never differenced without reduction')
     ctx.doc('R3', 'the free-energy graph wraps neighbour voxels modulo the grid shape')
     ctx.doc('R4', 'the neighbour move set is symmetric under the cubic point group (all 6 / 26 neighbours)')
+    ctx.doc('R5', 'relabelling atoms: the per-atom event scan resets its state for every atom (no result depends on which atom is scanned next)')
     ctx.floor('R1', 4)
     ctx.floor('R2', 8, 'reads of wrapped positions outside trajectory.py')
     scan = [it for it in ctx.package_scan()]
@@ -103,3 +104,6 @@ def check(ctx):
                        f'periodic distance receives {geo_text(bad[0].geo)}')
     # ---- R3 / R4
     check_moves(ctx, R1='R4', R6='R3')
+    # ---- R5 atom permutation: per-atom scans do not carry state from one atom to the next
+    from .C04 import check_scanner_state
+    check_scanner_state(ctx, 'R5')
